@@ -81,6 +81,37 @@ func validSetup(r *RNG, cmd string) cmdSetup {
 			s.fastas = []string{"r.fa"}
 		}
 	}
+	// valid extra options: the same refusal must come through every option path of the command line layer
+	opt := func(chance int, extra ...string) {
+		if r.Chance(1, chance) {
+			s.args = append(s.args, extra...)
+		}
+	}
+	switch cmd {
+	case "snps":
+		opt(3, "--hard-gaps")
+		opt(3, "--aggregate", "--threshold", r.PickStr([]string{"0", "0.2", "0.5"}))
+	case "closest", "closest-n":
+		opt(2, "-m", r.PickStr([]string{"snp", "raw", "tn93"}))
+		opt(3, "-d", r.PickStr([]string{"0", "0.3", "1", "5"}))
+		opt(3, "--table")
+	case "topranking":
+		opt(3, "--table")
+		opt(3, "--no-fill")
+		opt(3, "--dist-all", "3")
+		opt(4, "--threshold-pair", "0.5")
+	case "variants", "samvariants":
+		opt(3, "--aggregate")
+		opt(3, "--append-snps")
+		opt(4, "--start", "2", "--end", fmt.Sprint(w-1))
+	case "toma":
+		opt(3, "--pad")
+		opt(3, "--wrap", "7")
+	case "topa":
+		opt(3, "--skip-insertions")
+		opt(3, "--wrap", "7")
+		opt(4, "--omit-reference")
+	}
 	return s
 }
 
@@ -289,7 +320,7 @@ func execExitC18(c *Case, dir string) {
 	case "no-option":
 		var na []string
 		for i := 0; i < len(args); i++ {
-			if args[i] == "--size-total" {
+			if args[i] == "--size-total" || args[i] == "--dist-all" { // every size/dist option goes (with its value)
 				i++
 				continue
 			}
